@@ -39,6 +39,9 @@ pub struct NetCfg {
     pub max_stall_us: u64,
     /// capture every byte per direction (C15 canary scan, wire views)
     pub capture: bool,
+    /// include the first bytes of each write in the event trace (off for TLS: ciphertext and
+    /// handshake randoms differ between executions, lengths do not)
+    pub trace_bytes: bool,
 }
 
 impl NetCfg {
@@ -49,10 +52,11 @@ impl NetCfg {
             stall_pct: sim.pick(&[0u64, 0, 5, 20]),
             max_stall_us: sim.pick(&[10u64, 1_000, 50_000]),
             capture: false,
+            trace_bytes: true,
         }
     }
     pub fn ideal() -> NetCfg {
-        NetCfg { cap: 1 << 20, frag: false, stall_pct: 0, max_stall_us: 0, capture: false }
+        NetCfg { cap: 1 << 20, frag: false, stall_pct: 0, max_stall_us: 0, capture: false, trace_bytes: true }
     }
 }
 
@@ -367,7 +371,8 @@ impl AsyncWrite for SimStream {
         }
         this.sim.mark(0x20 + (side == Side::Server) as u64);
         let id = this.id;
-        this.sim.ev(|| format!("t={now:?} net[{id}] {side:?} write {n}B of {}B {}", data.len(), hex(&data[..n.min(24)])));
+        let tb = this.cfg.trace_bytes;
+        this.sim.ev(|| format!("t={now:?} net[{id}] {side:?} write {n}B of {}B {}", data.len(), if tb { hex(&data[..n.min(24)]) } else { String::new() }));
         Poll::Ready(Ok(n))
     }
 
